@@ -50,7 +50,10 @@ META = {
         "include mock's swap of document['source'] / reporter.source / get_source_and_line is the included file and is "
         "restored in finally from values saved before the try. R6: in the function that builds DirectiveParsingResult, every "
         "statement that removes k leading lines from the body list (slice, pop(0), del) has `offset += k` in the same block, and "
-        "putting the directive-line text in front of the body sets the offset to -1 (body[0] then lies before the first content line)."
+        "putting the directive-line text in front of the body sets the offset to -1 (body[0] then lies before the first content line). "
+        "R7: at START-convention call sites every cut from the head of the text (lines slice, character prefix) is carried additively "
+        "in the line argument, and no plain re-assignment between a cut and the call forgets it. R5 also rejects a .source stamp read "
+        "from a path copy cached on the renderer unless the include mock swaps that copy too."
     ),
     "not_decided": (
         "the numeric truth of each line for all nestings (only unit/base/convention consistency); which token a node is "
@@ -69,7 +72,7 @@ META = {
     ],
 }
 
-R1, R2, R3, R4, R5, R6 = "C04.R1", "C04.R2", "C04.R3", "C04.R4", "C04.R5", "C04.R6"
+R1, R2, R3, R4, R5, R6, R7 = "C04.R1", "C04.R2", "C04.R3", "C04.R4", "C04.R5", "C04.R6", "C04.R7"
 
 
 # ---------------------------------------------------------------------------
@@ -1463,6 +1466,25 @@ def _path_kind(e: ast.expr | None, fi: FunctionInfo, corpus: Corpus, depth: int 
             return "path"
         if e.attr in ("content", "rawsource", "info", "markup"):
             return "nonpath"
+        if isinstance(e.value, ast.Name) and e.value.id == "self":
+            # an attribute of the object itself: judged by what its class stores there
+            f = fi
+            while f is not None and f.cls is None:
+                f = f.parent_func
+            kinds = set()
+            if f is not None:
+                for c in corpus.mro(f.cls) + corpus.subclasses(f.cls):
+                    for m in c.methods.values():
+                        for n in m.local_nodes():
+                            for t, tv in _assign_pairs(n):
+                                if isinstance(t, ast.Attribute) and t.attr == e.attr and isinstance(t.value, ast.Name) and t.value.id == "self":
+                                    kinds.add(_path_kind(tv, m, corpus, depth + 1))
+                            if isinstance(n, ast.AnnAssign) and n.value is not None and isinstance(n.target, ast.Attribute) and n.target.attr == e.attr and isinstance(n.target.value, ast.Name) and n.target.value.id == "self":
+                                kinds.add(_path_kind(n.value, m, corpus, depth + 1))
+            if kinds == {"path"}:
+                return f"cached:{e.attr}"
+            if kinds and kinds <= {"nonpath"}:
+                return "nonpath"
         return "unknown"
     if isinstance(e, ast.Call):
         d = dotted(e.func) or ""
@@ -1477,6 +1499,12 @@ def _path_kind(e: ast.expr | None, fi: FunctionInfo, corpus: Corpus, depth: int 
             return "path"
         if d.endswith(("json.dumps", "dumps")) or (isinstance(e.func, ast.Attribute) and e.func.attr in STR_CALLS):
             return "nonpath"
+        # a package helper / accessor: judged by what it returns
+        targets = [t for t in get_callgraph(corpus).resolve_call(e, fi) if isinstance(t, FunctionInfo) and not t.is_lambda]
+        if len(targets) == 1 and depth < 4:
+            rk = {_path_kind(r.value, targets[0], corpus, depth + 1) for r in targets[0].local_nodes() if isinstance(r, ast.Return) and r.value is not None}
+            if len(rk) == 1:
+                return next(iter(rk))
         return "unknown"
     if isinstance(e, ast.Lambda):
         b = e.body
@@ -1508,7 +1536,10 @@ def _path_kind(e: ast.expr | None, fi: FunctionInfo, corpus: Corpus, depth: int 
                 kinds.add("unknown")
         if kinds == {"path"}:
             return "path"
-        if "nonpath" in kinds and "path" not in kinds:
+        cached = {k_ for k_ in kinds if k_.startswith("cached:")}
+        if len(cached) == 1 and kinds <= {"path"} | cached:
+            return next(iter(cached))
+        if "nonpath" in kinds and "path" not in kinds and not cached:
             return "nonpath"
         return "unknown"
     return "unknown"
@@ -1523,6 +1554,19 @@ def _assign_pairs(n: ast.AST):
             yield from zip(t.elts, n.value.elts)
         else:
             yield t, n.value
+
+
+def _mock_swapped_renderer_attrs(corpus: Corpus) -> set[str]:
+    """Attributes of the renderer the include mock assigns inside the try around its nested render."""
+    run = corpus.func(INCLUDE_RUN)
+    out: set[str] = set()
+    for tr in [n for n in run.local_nodes() if isinstance(n, ast.Try) and n.finalbody and "nested_render_text" in unparse(n)]:
+        for s_ in tr.body:
+            for n in ast.walk(s_):
+                for t, _tv in _assign_pairs(n):
+                    if isinstance(t, ast.Attribute) and unparse(t.value).endswith("renderer"):
+                        out.add(t.attr)
+    return out
 
 
 def _is_path_var(name: str, fi: FunctionInfo) -> bool:
@@ -1561,7 +1605,20 @@ def r5_source_path(corpus: Corpus, rep: Report, tier: str):
                 k = k0 if seen[k0] == 1 else f"{k0}#{seen[k0]}"
                 site = fi.module.site(n)
                 pk = _path_kind(v, fi, corpus)
-                if pk == "path":
+                if pk.startswith("cached:"):
+                    attr = pk.split(":", 1)[1]
+                    owner = fi
+                    while owner is not None and owner.cls is None:
+                        owner = owner.parent_func
+                    renderer = corpus.cls("mdit_to_docutils.base:DocutilsRenderer")
+                    on_renderer = owner is not None and any(c.fq == renderer.fq for c in corpus.mro(owner.cls))
+                    if not on_renderer:
+                        rep.error(R5, f"{site}: `{short(v, 50)}` is a path cached on {owner.cls.name if owner else '?'}; cannot tell whether it follows the include mock's swap")
+                    elif attr in _mock_swapped_renderer_attrs(corpus):
+                        rep.ok(R5, k, site, f"cached copy self.{attr}, swapped by the include mock as well")
+                    else:
+                        rep.violation(R5, k, site, f"`{short(n, 70)}` stamps a copy of the document path that the renderer cached in self.{attr}; the include mock swaps document['source'] / reporter.source for the included file but not this copy, so every node of an included file carries the including file as its source")
+                elif pk == "path":
                     rep.ok(R5, k, site)
                 elif pk == "nonpath":
                     rep.violation(R5, k, site, f"`{short(n, 70)}` stores a value that is not a source path (it derives from document text) in a node's source: warnings located at this node name the text instead of the file")
@@ -1586,7 +1643,8 @@ def r5_source_path(corpus: Corpus, rep: Report, tier: str):
             if isinstance(n, ast.Assign):
                 for t, tv in _assign_pairs(n):
                     ut = unparse(t)
-                    if ut.endswith(("['source']", ".source", ".get_source_and_line")):
+                    cache_swap = isinstance(t, ast.Attribute) and unparse(t.value).endswith("renderer") and isinstance(tv, ast.Call) and dotted(tv.func) == "str"
+                    if ut.endswith(("['source']", ".source", ".get_source_and_line")) or cache_swap:
                         swapped[ut] = (n, tv)
                         if n.lineno > call.lineno:
                             rep.violation(R5, f"{run.fq}|swap precedes render|{ut}", run.module.site(n), f"{ut} is swapped after the nested render")
@@ -1856,7 +1914,100 @@ def _judge_pairing(corpus: Corpus, rep: Report, fi: FunctionInfo, B: str, O: str
                     rep.error(R6, f"{fi.module.site(st)}: `{short(st, 50)}` resets body_offset outside an initialisation or a prepend; not understood")
 
 
-RULES = [r1_stamping, r2_line_kinds, r3_shift_once, r4_lossy_round_trip, r5_source_path, r6_body_offset_pairing]
+# ---------------------------------------------------------------------------
+# R7 START convention: every cut from the head of the included text is counted in the line argument
+
+
+def _names(e: ast.AST | None) -> set[str]:
+    return {x.id for x in ast.walk(e) if isinstance(x, ast.Name)} if e is not None else set()
+
+
+def _head_cuts(value: ast.expr, T: str, K: "Kinds", fi: FunctionInfo) -> list[tuple[str, ast.expr]]:
+    """Head slices of text/lines ``T`` inside ``value``: [(kind 'lines'|'chars', lower bound)]."""
+    out = []
+    for n in ast.walk(value):
+        if isinstance(n, ast.Subscript) and isinstance(n.slice, ast.Slice) and n.slice.lower is not None:
+            base = n.value
+            if isinstance(base, ast.Call) and isinstance(base.func, ast.Attribute) and base.func.attr in ("splitlines", "split") and isinstance(base.func.value, ast.Name) and base.func.value.id == T:
+                out.append(("lines", n.slice.lower))
+            elif isinstance(base, ast.Name) and base.id == T:
+                out.append(("lines" if K.is_lines(base, fi) and not K.is_str(base, fi) else "chars", n.slice.lower))
+    return out
+
+
+@rule(R7)
+def r7_start_accumulator(corpus: Corpus, rep: Report, tier: str):
+    rep.rule(R7, "START convention: the count of lines cut from the head of the text (start-line slice, start-after cut) flows additively into the line argument; no later assignment forgets it")
+    K = _kinds(corpus)
+    n_sites = 0
+    for (sink_name, caller_fq), (conv, _why) in NRT_CONVENTION.items():
+        if conv != START:
+            continue
+        fi = corpus.func(caller_fq.replace("myst_parser.", "", 1))
+        sink_fq = next(fq for fq in LINE_SINKS if fq.endswith("." + sink_name))
+        idx, kwname = LINE_SINKS[sink_fq]
+        for call in sorted((n for n in fi.local_nodes() if isinstance(n, ast.Call) and isinstance(n.func, ast.Attribute) and n.func.attr == sink_name), key=lambda c: c.lineno):
+            n_sites += 1
+            arg = arg_or_kw(call, idx, kwname)
+            text = arg_or_kw(call, 0, "text" if sink_name == "nested_render_text" else "content")
+            site = fi.module.site(call)
+            base_k = f"{fi.fq}|{sink_name}|start count"
+            vnames = _names(arg)
+            if not vnames:
+                rep.ok(R7, base_k, site, f"constant `{short(arg, 20) if arg is not None else '?'}`: nothing is cut from the text")
+                continue
+            if not (len(vnames) == 1 and isinstance(text, ast.Name)):
+                rep.error(R7, f"{site}: the START call does not pass one text name and a line argument built from one name; accumulator not understood")
+                continue
+            V, T = next(iter(vnames)), text.id  # `startline`, also inside `startline + k` (the constant is R2's business)
+            cfg = get_cfg(fi)
+            sink_stmt = cfg.stmt_of(call)
+            defs_v = _defs(fi, V)
+            cuts = []
+            for st, v, how in _defs(fi, T):
+                if how == "assign" and v is not None and st is not None:
+                    for kind, lower in _head_cuts(v, T, K, fi):
+                        cuts.append((st, kind, lower))
+            reported: set[int] = set()
+            for st, kind, lower in cuts:
+                ln = _names(lower)
+                k = f"{fi.fq}|{sink_name}|cut {short(st, 60)}"
+                csite = fi.module.site(st)
+                if kind == "lines":
+                    flows = V in ln or any(v is not None and (ln & _names(v)) for _, v, _h in defs_v)
+                    if flows:
+                        rep.ok(R7, k, csite, f"{short(lower, 30)} leading line(s) cut and carried in `{V}`")
+                    else:
+                        rep.violation(R7, k, csite, f"`{short(st, 60)}` cuts {short(lower, 30)} leading line(s) from the text but `{V}` (the line argument) never receives that count: every line of the included text is reported too low")
+                else:
+                    lk, _p = _stmt_list_of(st)
+                    feeders = {V} | {nm for _, v, _h in defs_v for nm in _names(v)}
+                    partners = []
+                    for sib in getattr(_p, _stmt_list_of(st)[0][1], []):
+                        tgt = sib.target if isinstance(sib, ast.AugAssign) else (sib.targets[0] if isinstance(sib, ast.Assign) and len(sib.targets) == 1 else None)
+                        if sib is not st and isinstance(tgt, ast.Name) and tgt.id in feeders and tgt.id != T:
+                            partners.append(sib)
+                    if partners:
+                        rep.ok(R7, k, csite, f"character cut paired with `{short(partners[0], 50)}`")
+                    else:
+                        rep.violation(R7, k, csite, f"`{short(st, 60)}` cuts a prefix off the text but nothing in the same block adds the number of cut lines to `{V}`: the rest of the file is reported too low")
+                # a plain re-assignment of V between this cut and the sink forgets the lines counted so far
+                reach = cfg.reachable_from(st)
+                for d, v, how in defs_v:
+                    if how != "assign" or d is None or v is None or id(d) in reported or d is st:
+                        continue
+                    nm = _names(v)
+                    if V in nm or (kind == "lines" and (ln & nm)):
+                        continue
+                    if d in reach and sink_stmt in cfg.reachable_from(d):
+                        reported.add(id(d))
+                        rep.violation(R7, f"{fi.fq}|{sink_name}|overwrites {short(d, 60)}", fi.module.site(d), f"`{short(d, 60)}` assigns `{V}` afresh after `{short(st, 50)}` already cut lines from the head of the text: the lines skipped before are forgotten (use `{V} += ...`), so the included text is reported too low when both cuts apply")
+    if n_sites == 0:
+        rep.error(R7, "no START-convention call site found")
+    rep.expect_min(R7, 3, "START call sites and head cuts of the included text (start-line slice, start-after cut)")
+
+
+RULES = [r1_stamping, r2_line_kinds, r3_shift_once, r4_lossy_round_trip, r5_source_path, r6_body_offset_pairing, r7_start_accumulator]
 
 
 # ---------------------------------------------------------------------------
@@ -2080,6 +2231,30 @@ def mutants(corpus: Corpus):
     f = h2n.func("default_html")
     st = find_stmt(f, lambda s: isinstance(s, ast.Assign) and unparse(s.targets[0]).endswith(".source"))
     add("c04-raw-html-source-is-text", R5, h2n, st.value if st else None, "text", "default_html")
+    # a copy of the document path cached at setup time is not seen by the include mock's swap
+    sr = base.func("DocutilsRenderer.setup_render")
+    anchor = find_stmt(sr, lambda s: isinstance(s, (ast.Assign, ast.AnnAssign)) and unparse(s.targets[0] if isinstance(s, ast.Assign) else s.target) == "self.reporter")
+    al = base.func("DocutilsRenderer.add_line_and_source_path")
+    src_store = find_stmt(al, lambda s: isinstance(s, ast.Assign) and any(isinstance(t, ast.Attribute) and t.attr == "source" for t in s.targets))
+    fence = base.func("DocutilsRenderer.render_fence")
+    fkw = find_node(fence, lambda n: isinstance(n, ast.keyword) and n.arg == "source")
+    for mid, node_, exp in (("c04-stamper-reads-cached-source", src_store.value if src_store else None, "add_line_and_source_path"), ("c04-code-block-source-from-cache", fkw.value if fkw is not None else None, "create_highlighted_code_block")):
+        if anchor is None or node_ is None or node_.lineno < anchor.lineno:
+            out.append((mid, "setup_render / stamping construct not found"))
+            continue
+        src2 = splice(base.src, node_, "self._source_path")  # later position first, offsets of the earlier node stay valid
+        ind_ = " " * anchor.col_offset
+        src2 = splice(src2, anchor, ast.get_source_segment(base.src, anchor) + f'\n{ind_}self._source_path = self.document["source"]')
+        out.append(Mutant(mid, R5, base.rel, src2, expect=exp))
+
+    # ---- R7
+    f = mk.func("MockIncludeDirective.run")
+    aug = find_stmt(f, lambda s: isinstance(s, ast.AugAssign) and unparse(s.target) == "startline" and any(isinstance(a_, ast.For) for a_ in ancestors(s)))
+    add("c04-start-after-overwrites-start-line", R7, mk, aug, f"startline = {unparse(aug.value)}" if aug is not None else "", "overwrites", canary=True)
+    add("c04-start-after-cut-not-counted", R7, mk, aug, "pass", "cut file_content")
+    st = find_stmt(f, lambda s: isinstance(s, ast.Assign) and unparse(s.targets[0]) == "startline" and isinstance(s.value, ast.BoolOp))
+    add("c04-start-line-count-reset", R7, mk, st.value if st is not None else None, "0", "overwrites")
+
     f = base.func("DocutilsRenderer.dict_to_fm_field_list")
     st = find_stmt(f, lambda s: isinstance(s, ast.Assign) and unparse(s.targets[0]) == "field_node.source")
     if st is not None and unparse(st.value) != "value":
